@@ -234,9 +234,11 @@ def r2_one_protocol(ctx):
       nd = g.nodes[n]
       if nd.kind == 'if':
         arm = nd.ast.body
-        if arm and isinstance(arm[-1], ast.Continue):
+        # only a `continue` of the OPERATOR loop skips an operator (an inner loop over tensors has its own)
+        own = lambda c_: (shared.enclosing_loops(f.node, c_) or [None])[-1] is head.ast
+        if arm and isinstance(arm[-1], ast.Continue) and own(arm[-1]):
           skips.append(defuse.norm(nd.ast.test))
-        if nd.ast.orelse and isinstance(nd.ast.orelse[-1], ast.Continue):
+        if nd.ast.orelse and isinstance(nd.ast.orelse[-1], ast.Continue) and own(nd.ast.orelse[-1]):
           skips.append('not (' + defuse.norm(nd.ast.test) + ')')
     extra = [t for t in skips if not (('TFL_OP_CODE_TO_NAME' in t and 'not in' in t) or ('NO_QUANTIZE' in t and '==' in t) or t.endswith('is None'))]
     ctx.check(R, not extra, head.ast, f, f'skip conditions {skips}',
